@@ -107,12 +107,12 @@ pub use crate::outcmp::{Diff, Out, compare_outputs};
 
 // ------------------------------------------------------------------------------------------ part 1: verdicts over SEM_SCHEMA
 
-struct JsonSubject {
-    schema: Schema<Cow<'static, str>, Pos>,
+pub struct JsonSubject {
+    pub schema: Schema<Cow<'static, str>, Pos>,
     opts: IntroOpts,
 }
 
-fn sem_json_subjects() -> Vec<JsonSubject> {
+pub fn sem_json_subjects() -> Vec<JsonSubject> {
     let (_, sch) = sem_schema();
     let variants = [
         IntroOpts::default(),
@@ -129,7 +129,7 @@ fn sem_json_subjects() -> Vec<JsonSubject> {
         .collect()
 }
 
-fn json_check(s: &JsonSubject, text: &str) -> Result<Result<(), Vec<pipeline::Diag>>, crate::util::Panic> {
+pub fn json_check(s: &JsonSubject, text: &str) -> Result<Result<(), Vec<pipeline::Diag>>, crate::util::Panic> {
     let ops = vec![(PathBuf::from("/p/a.graphql"), text.to_string())];
     catch(|| {
         let loaded = match pipeline::load_operations(&ops, 1) {
